@@ -54,6 +54,13 @@ func derivesFromRecv(p *core.Prog, e *core.Expr, recv *ssa.Parameter) bool {
 
 func c15Rules(p *core.Prog, r *core.Run) {
 	c15Pure(p, r, "C15.PURE")
+	c15Targets(p, r, "C15")
+}
+
+// c15Targets: pairing and guard rules of the Targets enumeration, reported
+// under pre (C15, and C17.TARGETS: the ECH list dialed with an address is the
+// one of the record that produced the address).
+func c15Targets(p *core.Prog, r *core.Run, pre string) {
 	fn := p.Func(Ech, "(ResolveResult).Targets")
 	if fn == nil {
 		return
@@ -68,7 +75,7 @@ func c15Rules(p *core.Prog, r *core.Run) {
 		}
 	}
 	if iter == nil {
-		r.Undecided("C15.PAIR", "Targets:iterator", p.Pos(fn.Pos()), "Targets does not return a function literal")
+		r.Undecided(pre+".PAIR", "Targets:iterator", p.Pos(fn.Pos()), "Targets does not return a function literal")
 		return
 	}
 	// the emit helper: the literal (inside the iterator) that calls yield
@@ -81,7 +88,7 @@ func c15Rules(p *core.Prog, r *core.Run) {
 		}
 	}
 	if add == nil {
-		r.Undecided("C15.PAIR", "Targets:emit", p.Pos(iter.Pos()), "no emit helper that calls yield found")
+		r.Undecided(pre+".PAIR", "Targets:emit", p.Pos(iter.Pos()), "no emit helper that calls yield found")
 		return
 	}
 	// --- PAIR / GUARDS on the call sites of add
@@ -95,7 +102,7 @@ func c15Rules(p *core.Prog, r *core.Run) {
 		}
 	}
 	if httpsLoop == nil {
-		r.Undecided("C15.PAIR", "Targets:https-loop", p.Pos(iter.Pos()), "no loop over r.HTTPS")
+		r.Undecided(pre+".PAIR", "Targets:https-loop", p.Pos(iter.Pos()), "no loop over r.HTTPS")
 		return
 	}
 	body := core.Loops(iter)[httpsLoop]
@@ -131,7 +138,7 @@ func c15Rules(p *core.Prog, r *core.Run) {
 					none = true
 				}
 			}
-			r.Check("C15.GUARDS", key+":plain", plain && none, pos, "plain addresses (origin Address, origin port, no ECH, no ALPN: %v) are emitted only when no target was emitted from an HTTPS record (len(seen) == 0: %v)", plain, none)
+			r.Check(pre+".GUARDS", key+":plain", plain && none, pos, "plain addresses (origin Address, origin port, no ECH, no ALPN: %v) are emitted only when no target was emitted from an HTTPS record (len(seen) == 0: %v)", plain, none)
 			continue
 		}
 		nIn++
@@ -180,7 +187,7 @@ func c15Rules(p *core.Prog, r *core.Run) {
 				src = "hints"
 			}
 		}
-		r.Check("C15.PAIR", key, pair && src != "", pos, "target from an HTTPS record: ECH, ALPN and port come from the same record as the addresses (%v); addresses from %q", pair, src)
+		r.Check(pre+".PAIR", key, pair && src != "", pos, "target from an HTTPS record: ECH, ALPN and port come from the same record as the addresses (%v); addresses from %q", pair, src)
 		// guards
 		notAlias := false
 		hasTarget, noTarget, noAddr := false, false, false
@@ -205,9 +212,9 @@ func c15Rules(p *core.Prog, r *core.Run) {
 		case "hints":
 			okG = okG && noTarget && noAddr
 		}
-		r.Check("C15.GUARDS", key, okG, pos, "alias-mode records are skipped (%v); %s addresses are used under the right condition (record names a target: %v, names none: %v, origin has no address: %v)", notAlias, src, hasTarget, noTarget, noAddr)
+		r.Check(pre+".GUARDS", key, okG, pos, "alias-mode records are skipped (%v); %s addresses are used under the right condition (record names a target: %v, names none: %v, origin has no address: %v)", notAlias, src, hasTarget, noTarget, noAddr)
 	}
-	r.Check("C15.PAIR", "Targets:emit-sites", nIn == 4 && nOut == 1, p.Pos(iter.Pos()), "four emit sites inside the HTTPS loop (target, origin, IPv4 hints, IPv6 hints) and one after it (found %d and %d)", nIn, nOut)
+	r.Check(pre+".PAIR", "Targets:emit-sites", nIn == 4 && nOut == 1, p.Pos(iter.Pos()), "four emit sites inside the HTTPS loop (target, origin, IPv4 hints, IPv6 hints) and one after it (found %d and %d)", nIn, nOut)
 
 	// port 80 -> 443 only in the HTTPS loop
 	for _, l := range lits {
@@ -219,7 +226,7 @@ func c15Rules(p *core.Prog, r *core.Run) {
 				}
 				for _, e := range ph.Edges {
 					if c, ok := e.(*ssa.Const); ok && c.Value != nil && c.Value.ExactString() == "443" {
-						r.Check("C15.GUARDS", "Targets:port-443", l == iter && body[b], p.InstrPos(ph), "the port is rewritten to 443 only inside the loop over HTTPS records")
+						r.Check(pre+".GUARDS", "Targets:port-443", l == iter && body[b], p.InstrPos(ph), "the port is rewritten to 443 only inside the loop over HTTPS records")
 					}
 				}
 			}
@@ -236,7 +243,7 @@ func c15Rules(p *core.Prog, r *core.Run) {
 		}
 	}
 	if ny != 1 {
-		r.Check("C15.GUARDS", "emit:yield", false, p.Pos(add.Pos()), "expected one yield call in the emit helper, found %d", ny)
+		r.Check(pre+".GUARDS", "emit:yield", false, p.Pos(add.Pos()), "expected one yield call in the emit helper, found %d", ny)
 		return
 	}
 	fs := p.Facts(yield.Block())
@@ -260,7 +267,7 @@ func c15Rules(p *core.Prog, r *core.Run) {
 		}
 	}
 	viaFilter := addrV != nil && addrV.Op == "call" && addrV.Fn != nil && addrV.Fn.Parent() == fn
-	r.Check("C15.GUARDS", "emit:filters", valid && unseen && set && viaFilter, p.InstrPos(yield.Instr), "yield is dominated by: address passed the family filter and is valid (%v, through the filter helper: %v), address/port pair not seen before (%v), and it is marked seen before the yield (%v)", valid, viaFilter, unseen, set)
+	r.Check(pre+".GUARDS", "emit:filters", valid && unseen && set && viaFilter, p.InstrPos(yield.Instr), "yield is dominated by: address passed the family filter and is valid (%v, through the filter helper: %v), address/port pair not seen before (%v), and it is marked seen before the yield (%v)", valid, viaFilter, unseen, set)
 	// what is yielded
 	tgt := 0
 	for _, b := range add.Blocks {
@@ -277,22 +284,22 @@ func c15Rules(p *core.Prog, r *core.Run) {
 			switch x.Name {
 			case "Address":
 				tgt++
-				r.Check("C15.GUARDS", "emit:Target.Address", addrV != nil && v.String() == addrV.String(), p.InstrPos(st), "the yielded address is the filtered, de-duplicated one")
+				r.Check(pre+".GUARDS", "emit:Target.Address", addrV != nil && v.String() == addrV.String(), p.InstrPos(st), "the yielded address is the filtered, de-duplicated one")
 			case "ECH":
 				tgt++
-				r.Check("C15.PAIR", "emit:Target.ECH", v.Op == "param" && v.Name == "cc2", p.InstrPos(st), "Target.ECH is the helper's ech argument")
+				r.Check(pre+".PAIR", "emit:Target.ECH", v.Op == "param" && v.Name == "cc2", p.InstrPos(st), "Target.ECH is the helper's ech argument")
 			case "ALPN":
 				tgt++
-				r.Check("C15.PAIR", "emit:Target.ALPN", v.Op == "param" && v.Name == "cc3", p.InstrPos(st), "Target.ALPN is the helper's alpn argument")
+				r.Check(pre+".PAIR", "emit:Target.ALPN", v.Op == "param" && v.Name == "cc3", p.InstrPos(st), "Target.ALPN is the helper's alpn argument")
 			}
 		}
 	}
-	r.Check("C15.PAIR", "emit:Target-fields", tgt == 3, p.Pos(add.Pos()), "the yielded Target has its three fields set from the helper's arguments")
+	r.Check(pre+".PAIR", "emit:Target-fields", tgt == 3, p.Pos(add.Pos()), "the yielded Target has its three fields set from the helper's arguments")
 	// the family filter
-	c15Family(p, r, fn)
+	c15Family(p, r, fn, pre)
 }
 
-func c15Family(p *core.Prog, r *core.Run, targets *ssa.Function) {
+func c15Family(p *core.Prog, r *core.Run, targets *ssa.Function, pre string) {
 	var filt *ssa.Function
 	for _, l := range targets.AnonFuncs {
 		if len(l.Params) == 2 && len(callSites(p, []*ssa.Function{l}, `net/netip\.AddrFromSlice`)) == 1 {
@@ -300,7 +307,7 @@ func c15Family(p *core.Prog, r *core.Run, targets *ssa.Function) {
 		}
 	}
 	if filt == nil {
-		r.Undecided("C15.GUARDS", "filter", p.Pos(targets.Pos()), "address-family filter literal not found")
+		r.Undecided(pre+".GUARDS", "filter", p.Pos(targets.Pos()), "address-family filter literal not found")
 		return
 	}
 	netP := targets.Params[1]
@@ -320,7 +327,7 @@ func c15Family(p *core.Prog, r *core.Run, targets *ssa.Function) {
 					ok = false
 				}
 			}
-			r.Check("C15.GUARDS", "filter:"+strings.Trim(name, `"`), ok, p.Pos(filt.Pos()), "network %s admits only %s-byte addresses", name, fam.size)
+			r.Check(pre+".GUARDS", "filter:"+strings.Trim(name, `"`), ok, p.Pos(filt.Pos()), "network %s admits only %s-byte addresses", name, fam.size)
 		}
 	}
 }
